@@ -188,6 +188,8 @@ func brief(v interface{}) string {
 
 // World is the family plus the caller-owned inputs of New.
 type World struct {
+	// Huge: the first base frame has a thousand rows or more.
+	Huge    bool
 	Specs   []*gen.FrameSpec
 	Members []*Member
 	inputs  []inputCopy
@@ -239,6 +241,10 @@ func NewWorld(t *rapid.T, b Bounds) *World {
 			// beyond size thresholds of a thousand rows (caches and fast
 			// paths that only switch on for "large" frames)
 			fb.MinRows, fb.MaxRows, fb.MaxCols, fb.SmallDomain = 1024, 2600, 3, true
+			if rapid.Bool().Draw(t, "over2048") {
+				fb.MinRows = 2048
+			}
+			w.Huge = true
 		}
 		fb.SmallDomain = rapid.IntRange(0, 5).Draw(t, "smalldomain") != 0
 		fs := gen.DrawFrame(t, fb)
